@@ -57,9 +57,10 @@ Expected(n, c) ==
 Tour(n) ==
   LET cs == SetToSeq(Cases)
       put == [op |-> "PutObject", b |-> B, k |-> K, body |-> BodyOf(n), meta |-> <<>>, vid |-> ""] IN
+  \* h: the history that stores the object; a: the reads (a replay with --reopen restarts the backend between the two)
   [h |-> (IF Cfg.single = "" THEN <<[op |-> [op |-> "CreateBucket", b |-> B], r |-> [st |-> 200, code |-> ""]]>> ELSE <<>>)
-         \o <<[op |-> put, r |-> [st |-> 200, code |-> "", etag |-> BodyOf(n)]]>>
-         \o [i \in 1..Len(cs) |-> [op |-> [op |-> "GetObject", b |-> B, k |-> K, range |-> cs[i].h],
+         \o <<[op |-> put, r |-> [st |-> 200, code |-> "", etag |-> BodyOf(n)]]>>,
+   a |-> [i \in 1..Len(cs) |-> [op |-> [op |-> "GetObject", b |-> B, k |-> K, range |-> cs[i].h],
                                    r |-> Expected(n, cs[i])]]
          \* the object is still intact and fully readable afterwards
          \o <<[op |-> [op |-> "GetObject", b |-> B, k |-> K], r |-> [st |-> 200, code |-> "", body |-> BodyOf(n), etag |-> BodyOf(n)]]>>]
